@@ -36,3 +36,14 @@ pub use base64_chip::*;
 pub use data_types::{DateFormat, Separator};
 pub use parser_gadget::*;
 pub use specs::{spec_library, StdLibParser};
+
+/// Verification hooks (add-only, feature `verif-hooks`): nameable automaton types, the raw
+/// parsing-library data and the real automaton deserializer.
+#[cfg(feature = "verif-hooks")]
+pub mod verif_hooks {
+    pub use super::{
+        automaton::{Automaton, Letter, ALPHABET_MAX_SIZE},
+        serialization::verif_deserialize_automaton,
+        specs::verif_spec_library_data,
+    };
+}
